@@ -9,7 +9,7 @@ import gen_cube as G
 ID = "C14"
 LEAN_MODULES = ["CatiiProps.C14"]
 RULE = ("exhaustive: every list of 1..3 one-axis dims over N<=3 rows, values < 2, every common; random: 1..4 dims, N<=40, "
-        "extents 1..5, commons frequent/rare/absent; the same with explicit entries that list no row added to the dimensions; every third random cube is walked again after 1-3 in-place changes of its dimensions (update of a cell, shift_common(v)). Observed: ccube(dims).interactions() as a multiset of (coords, row ids). "
+        "extents 1..5, commons frequent/rare/absent; the same with explicit entries that list no row added to the dimensions; every third random cube is walked with a callback that itself walks the cube again at one of its calls; every third is walked again after 1-3 in-place changes of its dimensions (update of a cell, shift_common(v)). Observed: ccube(dims).interactions() as a multiset of (coords, row ids). "
         "Non-trivial = at least one item delivered; distinct by (dense columns, commons)")
 ASSUMPTIONS = ["dict iteration order is not part of the property: deliveries are compared as multisets"]
 
@@ -61,6 +61,21 @@ def observe(cube):
     return out
 
 
+def observe_reentrant(cube, at):
+    """walk with a callback of our own that, on its `at`-th call, walks the same cube again (a custom aggregate that
+    looks something up through the cube): returns what the outer callback and the nested walk received"""
+    outer, inner, calls = [], [], [0]
+
+    def cb(co, rows):
+        outer.append([[int(c) for c in co], [int(x) for x in np.asarray(rows).tolist()]])
+        calls[0] += 1
+        if calls[0] == at:
+            inner.extend(observe(cube))
+
+    cube.walk(cb)
+    return outer, inner
+
+
 def check(ctx, case, reqs, pend):
     from catii import ccube
     dense, commons = case["dense"], case["commons"]
@@ -93,6 +108,22 @@ def check(ctx, case, reqs, pend):
             cls="C14-wrong-deliveries")
     reqs.append({"op": "walk", "dims": G.dims_to_model(idxs)})
     pend.append((desc, got))
+    if exp and case.get("reenter"):
+        at = 1 + ctx.rng.randrange(len(exp))
+        try:
+            outer, inner = observe_reentrant(ccube(idxs), at)
+        except Exception as e:
+            ctx.oracle_fail("walk with a callback that walks the cube again raised %s: %s" % (type(e).__name__, str(e)[:80]), desc, cls="C14-raises")
+            outer = inner = None
+        if outer is not None:
+            ctx.hit("reentrant_walk")
+            ctx.evaluations += 1
+            if sorted(outer) != exp or sorted(inner) != exp:
+                which = "outer" if sorted(outer) != exp else "nested"
+                bad = outer if which == "outer" else inner
+                ctx.oracle_fail("a callback walked the same cube again at its call #%d: the %s walk delivered %d pairs, %d expected "
+                                "(%d not in the specification)" % (at, which, len(bad), len(exp), len([g for g in bad if g not in exp])),
+                                dict(desc, reenter_at=at), cls="C14-wrong-deliveries")
     if case.get("live") and all(d.ndim == 1 for d in dense) and len(dense[0]) > 0:
         live_walk(ctx, case, idxs)
 
@@ -146,6 +177,7 @@ def run(ctx):
         case = G.gen_dims(ctx.rng)
         if case["dense"]:
             case["live"] = it % 3 == 0
+            case["reenter"] = it % 3 == 1
             check(ctx, case, reqs, pend)
     # dimensions carrying explicit entries that list no row: they match no row, so nothing is presented for them
     for case in G.exhaustive_small(2, 2, 2):
